@@ -23,7 +23,9 @@ RULE = ('mark(), then a Hypothesis-drawn script (0-6 mutations quick, 0-12 thoro
         'valid by CPython\'s judgement (ast.parse(ast.unparse(edited)) dumps equal to edited). Oracle: out = reconcile(): C01 invariant on out; '
         'ast.dump(ast.parse(out.src)) == ast.dump(ast.parse(ast.unparse(edited))); with zero mutations out.src == marked source; every '
         'top-level statement that, with both neighbours, was not touched by any mutation keeps its original text (with its leading comment '
-        'block and line comment). Non-trivial = >= 2 mutations of different kinds of which >= 1 moves / duplicates an original node, in a '
+        'block and line comment). Half of the reconciles run under an ambient global option set (AMBIENTS: values of the options reconcile pins '
+        'for its replay - pars, norm*, coerce, docstr, raw, trivia ...), which must not influence the result; a deterministic grid runs every '
+        'mutation kind x selectors x every ambient set on expression-rich programs. Non-trivial = >= 2 mutations of different kinds of which >= 1 moves / duplicates an original node, in a '
         'program with comments; distinct by (source, script).')
 ASSUMPTIONS = [
     'the comment-preservation clause is asserted only for top-level statements not adjacent to any change (docs call comment handling in reconcile experimental)',
@@ -55,6 +57,38 @@ def strategy(tier):
                 'opts': draw(st.sampled_from([{}, {}, {'pep8space': 1}, {'elif_': False}, {'pep8space': False}]))}
 
     return strat()
+
+
+# ambient (global) option values in effect while reconcile() runs: every one of them is in the option set which reconcile pins for its replay, so
+# none may influence the result
+AMBIENTS = ({'pars': False}, {'pars': True}, {'coerce': True}, {'docstr': False}, {'norm': True}, {'norm_get': True}, {'norm_self': True}, {'pars_walrus': False},
+            {'pars_arglike': False}, {'raw': 'auto'}, {'trivia': 'all'}, {'pars': False, 'norm': True, 'docstr': 'strict'})
+RECON_PROGRAMS = (
+    'x = d * e\ny = (a + b) * c  # c1\nz = f(a, (b, c), k=(u if v else w))\nw = [p.q, -r, (s := 1), lambda: t]',
+    'def f(a, b=(1, 2)):\n    # lead\n    return (a or b) and c  # tail\n\nclass C(B):\n    v: int = a ** -b\n    def m(self): return self.x[(i, j)]',
+    'if a < (b | c) < d:\n    p = not (q and r)\nelif x:\n    y = [i for i in (j, k) if (i + 1)]\nelse:\n    del u, v\nfor t in (yield): pass',
+)
+
+
+def enumerate_cases(tier, shard, nshards, seed):
+    """Grid: every mutation kind x a few selector pairs, alone and followed by a second mutation, under every ambient option set (and none), on the
+    expression-rich programs."""
+
+    k = 0
+    sels = [(i * 7919 + 1, i * 104729 + 3) for i in range(6 if tier == 'quick' else 16)]
+
+    for src in RECON_PROGRAMS:
+        for mut in MUTS:
+            for a, b in sels:
+                for ai in range(-1, len(AMBIENTS)):
+                    k += 1
+
+                    if k % nshards != shard:
+                        continue
+
+                    rounds = [[[mut, a, b]]] if ai % 2 else [[[mut, a, b], [MUTS[(a + ai) % len(MUTS)], b, a]]]
+
+                    yield {'src': src, 'rounds': rounds, 'opts': {}, 'ambient': ai, 'enumerated': True}
 
 
 def L():
@@ -432,8 +466,20 @@ def execute(case, ctx):
         desc = f'round {rnd}: {applied} mutations {sorted(kinds)} then reconcile({opts})'
         site = '+'.join(sorted(kinds)[:3]) or 'none'
 
+        ai = case.get('ambient')
+
+        if ai is None:  # drawn cases: half of them under an ambient option set chosen by the script's selectors
+            ai = sum(m[1] for m in script) % (2 * len(AMBIENTS)) if script else -1
+
+        amb = AMBIENTS[ai] if 0 <= ai < len(AMBIENTS) else {}
+
+        if amb:
+            ctx.count('reconciles_under_ambient_options')
+            desc += f' under ambient options {amb}'
+
         try:
-            out = root.reconcile(**opts)
+            with FST.options(**amb):
+                out = root.reconcile(**opts)
         except Exception as exc:
             raise Violation('C13.raise', f'{desc} raised {exc!r}\n--- marked ---\n{marked_src[:600]}\n--- edited (unparsed) ---\n{unp[:600]}', f'raise:{type(exc).__name__}@{fst_site(exc)}:{site}') from None
 
